@@ -21,7 +21,7 @@ var strPool = []string{
 
 var keyPool = []string{"a", "b", "c", "k", "key", "x y", "", "A", "ʞa", "ʞb", "ʞc", "ʞk", "ʞkey", "ʞx-y", "1", "%d", "a\tb", "ʞ%s"}
 
-var symPool = []string{"$x", "$NUMBER", "$b", "a", "b", "x", "y", "foo", "bar-baz", "+", "-", "*", "/", "<=", "a1", "nil?", "swap!", "->", "x*", "é", "_", "λ"}
+var symPool = []string{"$x", "$NUMBER", "$b", "a", "b", "x", "y", "foo", "bar-baz", "+", "-", "*", "/", "<=", "a1", "nil?", "swap!", "->", "x*", "é", "_", "λ", "True", "FALSE", "Nil", "NIL", "nil1", "truex"}
 
 var kwNames = []string{"a", "b", "k", "key", "x-y", "a1", "é", "+", "kw?", "ʞx", "ʞ", "a:b", "1"}
 
@@ -49,7 +49,8 @@ func genScalar(r *rng) MalType {
 	case 2:
 		return r.intn(5) - 1
 	case 3:
-		return []int{0, 1, -1, 7, 42, 1000, -1000000, 2147483647}[r.intn(8)]
+		return []int{0, 1, -1, 7, 42, 1000, -1000000, 2147483647, 9007199254740992, 9007199254740993, -9007199254740993,
+			9223372036854775807, 9223372036854775806, -9223372036854775808, -9223372036854775807}[r.intn(15)]
 	case 4, 5:
 		return genString(r)
 	case 6:
